@@ -174,6 +174,12 @@ class SimSocket(object):
         deadline = None if self._timeout is None else w.clock.now + self._timeout
         while True:
             w.pipe.pump(w.clock.now)
+            if link.cur is None:
+                link.device._check_stall(w.clock.now)
+                if link.device.stalled and (link.device.stall or {}).get('kind') == 'eof':
+                    # the peer has closed its side: end-of-stream, recv() returns b'' at once
+                    link._rec(idx, actor, 'r', n, self._timeout, 0)
+                    return b''
             data = link.try_read(n, actor)
             if data is not None:
                 link._rec(idx, actor, 'r', n, self._timeout, len(data))
@@ -539,6 +545,8 @@ class SimAioTransport(asyncio.Transport):
         link = self.run.link
         ts = [self.pipe.next_time()]
         if not self.paused_reading:
+            if link.cur is None and not getattr(self, 'eof_delivered', False) and link.device.stalled and (link.device.stall or {}).get('kind') == 'eof':
+                ts.append(now)        # the peer's FIN is waiting to be noticed
             if link.readable_now():
                 ts.append(now)
             else:
@@ -562,7 +570,9 @@ class SimAioTransport(asyncio.Transport):
         if link.cur is None:
             link.device._check_stall(now)
         if link.cur is None and link.device.stalled and link.device.stall.get('kind') == 'eof' and not self.paused_reading:
-            self.protocol.eof_received()
+            if not getattr(self, 'eof_delivered', False):
+                self.eof_delivered = True
+                self.protocol.eof_received()
             return
         # deliver what is on the wire now, fragment by fragment
         n = 0
